@@ -52,6 +52,36 @@ pub fn prop_info(prop: &str) -> PropInfo {
                 "seeded search: a clean batch is evidence, not proof",
             ],
         },
+        "C18" => PropInfo {
+            engine: "entropy-sim",
+            quick: 3_000,
+            thorough: 100_000,
+            rule: "one world = one program (every example under /repo/examples once, then generated programs rich in multi-field cardano:: directives): parse+analyze+lower+to_bytes in 8 threads with distinct tape-drawn hash seeds plus 20 repetitions on one thread; for every example and 1 in 24 generated programs also `tx3c build --emit tii` in 3 fresh processes under the LD_PRELOAD entropy shim. evaluations = encodings compared; non-trivial = the front end accepts the program; distinct = distinct digests of the encoded bytes",
+            real: vec![
+                "tx3-lang parser/analyzer/lowering",
+                "tx3-tir to_bytes (ciborium) over every map/set in the model",
+                "the shipped tx3c binary built from /repo (process-level runs)",
+                "std RandomState / HashMap iteration order",
+            ],
+            stubbed: vec!["process entropy: getrandom override in-process, LD_PRELOAD shim for tx3c"],
+            assumptions: vec![
+                "std takes hash keys from the interposable getrandom symbol (self-checked at start-up)",
+                "8 hash seeds per program: two orders of a 2-field map coincide with probability 1/2 per seed pair, so a missed difference needs all 7 comparisons to coincide",
+            ],
+        },
+        "C20" => PropInfo {
+            engine: "resolver-sim",
+            quick: 6_000,
+            thorough: 300_000,
+            rule: "one world = one tape: program, static ledger, a history of 0..4 resolutions on one compiler instance with tape-chosen endings (success, error, store error at call k, cancel after poll k, compiler failure at round r), then the target on that instance and on a fresh one, both on fresh threads with the same hash seed. In a quarter of the worlds with a history the ending of the last element is swept exhaustively over all its store calls, await points and rounds. evaluations = (history, target) pairs compared; non-trivial = history not empty and target has all its arguments; distinct = distinct digests of the per-arm outcome log",
+            real: REAL_RESOLVER.to_vec(),
+            stubbed: STUB_RESOLVER.to_vec(),
+            assumptions: vec![
+                "reference model: a fresh tx3_cardano::Compiler with equal pparams, config and cursor",
+                "both arms run the target against the same static store under the same hash seed, so only the instance's past differs",
+                "the crash-point sweep is exhaustive per sampled (history, target) pair, not over pairs",
+            ],
+        },
         _ => PropInfo {
             engine: "?",
             quick: 1000,
@@ -67,6 +97,8 @@ pub fn prop_info(prop: &str) -> PropInfo {
 pub fn run_world(prop: &str, tier: Tier, n: u64, tape: Tape) -> WorldReport {
     match prop {
         "C02" | "C03" | "C04" | "C05" | "C10" | "C14" => crate::p_resolver::world(prop, tier, n, tape),
+        "C20" => crate::p_c20::world(tier, n, tape),
+        "C18" => crate::p_entropy::world_c18(tier, n, tape),
         _ => WorldReport {
             harness_error: Some(format!("no engine for property {prop}")),
             ..Default::default()
